@@ -1,2 +1,234 @@
-(* C05 placeholder while the tie is being built; replaced by the theorems. *)
-From FJ Require Import Model.Dens.
+(* C05 -- Named distribution families match their textbook densities and samplers.
+   Only the property theorems (each closed by [exact]) with their [Print Assumptions], and non-vacuity examples.
+   Model: Model/Dens.v (the classes AS THE CODE BUILDS THEM, generic over NumOps, IEEE classes as values).
+   Lemmas and the textbook densities ([normal_pdf] ... [t_pdf], [elog], [esum]): Proofs/DensP.v.
+   All theorems are over R ("exact over R; float rounding not modelled"); [lgam] is the abstract lgamma shared by
+   model ([n_lgamma]) and textbook form.  [map Fin xs] = an arbitrary point with real coordinates. *)
+From Coq Require Import Reals List ZArith Bool Lra Lia.
+From FJ Require Import Model.Num Model.Dens Proofs.RNum Proofs.DensP.
+Import ListNotations.
+Open Scope R_scope.
+
+(* ---- each family: code-shaped log_prob = SUM over the coordinates of ln(textbook density), -inf where it vanishes;
+   any dimension (lists of any length), all valid parameters, every real point ---- *)
+Theorem C05_normal_spec : forall lgam locs scales xs,
+  length locs = length xs -> length scales = length xs -> Forall (fun s => 0 < s) scales ->
+  fam_log_prob (ROpsG lgam) FNormal locs scales [] (map Fin xs) = esum (map3 (fun m s x => elog (normal_pdf m s x)) locs scales xs).
+Proof. exact normal_spec. Qed.
+Print Assumptions C05_normal_spec.
+
+(* x <= 0 in any coordinate gives -inf (lognormal_pdf is 0 there) *)
+Theorem C05_lognormal_spec : forall lgam locs scales xs,
+  length locs = length xs -> length scales = length xs -> Forall (fun s => 0 < s) scales ->
+  fam_log_prob (ROpsG lgam) FLogNormal locs scales [] (map Fin xs) = esum (map3 (fun m s x => elog (lognormal_pdf m s x)) locs scales xs).
+Proof. exact lognormal_spec. Qed.
+Print Assumptions C05_lognormal_spec.
+
+(* constructor arguments (minval, maxval); density 1/(maxval - minval) on the CLOSED interval, 0 outside *)
+Theorem C05_uniform_spec : forall lgam los his xs,
+  length los = length xs -> length his = length xs -> Forall2 Rlt los his ->
+  fam_log_prob (ROpsG lgam) FUniform los his [] (map Fin xs) = esum (map3 (fun lo hi x => elog (uniform_pdf lo hi x)) los his xs).
+Proof. exact uniform_spec. Qed.
+Print Assumptions C05_uniform_spec.
+
+Theorem C05_gumbel_spec : forall lgam locs scales xs,
+  length locs = length xs -> length scales = length xs -> Forall (fun s => 0 < s) scales ->
+  fam_log_prob (ROpsG lgam) FGumbel locs scales [] (map Fin xs) = esum (map3 (fun m s x => elog (gumbel_pdf m s x)) locs scales xs).
+Proof. exact gumbel_spec. Qed.
+Print Assumptions C05_gumbel_spec.
+
+Theorem C05_cauchy_spec : forall lgam locs scales xs,
+  length locs = length xs -> length scales = length xs -> Forall (fun s => 0 < s) scales ->
+  fam_log_prob (ROpsG lgam) FCauchy locs scales [] (map Fin xs) = esum (map3 (fun m s x => elog (cauchy_pdf m s x)) locs scales xs).
+Proof. exact cauchy_spec. Qed.
+Print Assumptions C05_cauchy_spec.
+
+Theorem C05_laplace_spec : forall lgam locs scales xs,
+  length locs = length xs -> length scales = length xs -> Forall (fun s => 0 < s) scales ->
+  fam_log_prob (ROpsG lgam) FLaplace locs scales [] (map Fin xs) = esum (map3 (fun m s x => elog (laplace_pdf m s x)) locs scales xs).
+Proof. exact laplace_spec. Qed.
+Print Assumptions C05_laplace_spec.
+
+Theorem C05_logistic_spec : forall lgam locs scales xs,
+  length locs = length xs -> length scales = length xs -> Forall (fun s => 0 < s) scales ->
+  fam_log_prob (ROpsG lgam) FLogistic locs scales [] (map Fin xs) = esum (map3 (fun m s x => elog (logistic_pdf m s x)) locs scales xs).
+Proof. exact logistic_spec. Qed.
+Print Assumptions C05_logistic_spec.
+
+(* constructor argument rate (the code builds Scale(1/rate)); x < 0 gives -inf, x = 0 is inside *)
+Theorem C05_exponential_spec : forall lgam rates xs,
+  length rates = length xs -> Forall (fun r => 0 < r) rates ->
+  fam_log_prob (ROpsG lgam) FExponential rates [] [] (map Fin xs) = esum (map2 (fun r x => elog (exponential_pdf r x)) rates xs).
+Proof. exact exponential_spec. Qed.
+Print Assumptions C05_exponential_spec.
+
+(* Gamma := exp o lgam in t_pdf, lgam arbitrary *)
+Theorem C05_studentt_spec : forall lgam dfs locs scales xs,
+  length dfs = length xs -> length locs = length xs -> length scales = length xs ->
+  Forall (fun d => 0 < d) dfs -> Forall (fun s => 0 < s) scales ->
+  fam_log_prob (ROpsG lgam) FStudentT locs scales dfs (map Fin xs) =
+  esum (map4 (fun nu m s x => elog (t_pdf lgam nu m s x)) dfs locs scales xs).
+Proof. exact studentt_spec. Qed.
+Print Assumptions C05_studentt_spec.
+
+(* independent dimensions: the sum of the marginal log-densities is the log of the PRODUCT of the marginal densities *)
+Theorem C05_joint_is_product : forall ps, Forall (fun p => 0 <= p) ps -> esum (map elog ps) = elog (rprod ps).
+Proof. exact esum_elog_prod. Qed.
+Print Assumptions C05_joint_is_product.
+
+(* ---- never NaN: every NumOps instance (the float one included), every family, every input class ---- *)
+Theorem C05_lp_never_nan : forall (A : Type) (O : NumOps A) f p1 p2 p3 xs, fam_log_prob O f p1 p2 p3 xs <> NaN.
+Proof. exact @lp_never_nan. Qed.
+Print Assumptions C05_lp_never_nan.
+
+Theorem C05_class_lp_never_nan : forall (A : Type) (O : NumOps A) f a b d xs, class_log_prob O f a b d xs <> NaN.
+Proof. exact @class_lp_never_nan. Qed.
+Print Assumptions C05_class_lp_never_nan.
+
+Theorem C05_mixture_lp_never_nan : forall (A : Type) (O : NumOps A) lps ws, mixture_log_prob O lps ws <> NaN.
+Proof. exact @mixture_lp_never_nan. Qed.
+Print Assumptions C05_mixture_lp_never_nan.
+
+Theorem C05_mvn_lp_never_nan : forall (A : Type) (O : NumOps A) rows loc x, mvn_log_prob O rows loc x <> NaN.
+Proof. exact @mvn_lp_never_nan. Qed.
+Print Assumptions C05_mvn_lp_never_nan.
+
+(* ---- mixtures: any number of components; component values finite or -inf ---- *)
+Theorem C05_mixture_spec : forall lgam lps ws,
+  ws <> [] -> Forall (fun w => 0 < w) ws -> length lps = length ws -> Forall FN lps ->
+  mixture_log_prob (ROpsG lgam) lps ws = elog (rsum (map2 (fun lp w => w / rsum ws * eexp lp) lps ws)).
+Proof. exact mixture_spec. Qed.
+Print Assumptions C05_mixture_spec.
+
+(* invariance under rescaling of the weights: ANY component values *)
+Theorem C05_mixture_scale_invariant : forall lgam lps ws k,
+  0 < k -> ws <> [] -> Forall (fun w => 0 < w) ws ->
+  mixture_log_prob (ROpsG lgam) lps (map (Rmult k) ws) = mixture_log_prob (ROpsG lgam) lps ws.
+Proof. exact mixture_scale_invariant. Qed.
+Print Assumptions C05_mixture_scale_invariant.
+
+(* components that evaluate to NaN (LogNormal components at x <= 0): the mixture reports -inf *)
+Theorem C05_mixture_nan_component : forall lgam lps ws,
+  length lps = length ws -> Exists (fun v => v = NaN) lps -> mixture_log_prob (ROpsG lgam) lps ws = NInf.
+Proof. exact mixture_nan_component. Qed.
+Print Assumptions C05_mixture_nan_component.
+
+(* ---- MultivariateNormal.  PARTIAL.  Full statement wanted:
+       mvn_log_prob L mu x = -1/2 (x-mu)^T Sigma^-1 (x-mu) - 1/2 ln det(2 pi Sigma)   with Sigma = L L^T.
+   Proved: z := the forward-substitution result solves L z = x - mu (lower triangle; any dimension, positive diagonal) and
+       log_prob = -1/2 |z|^2 - sum_i ln L_ii - d/2 ln(2 pi).
+   Missing: |z|^2 = (x-mu)^T (L L^T)^-1 (x-mu) and prod L_ii^2 = det(L L^T) (needs determinants / matrix inverse). *)
+Theorem C05_mvn_spec_partial : forall lgam rows loc x,
+  length loc = length rows -> length x = length rows -> tri_ok rows ->
+  let z := mvn_z (ROpsG lgam) rows loc x in
+  length z = length rows /\
+  (forall j r bj, nth_error rows j = Some r -> nth_error (map2 (fun xi li => xi - li) x loc) j = Some bj ->
+     rdot r (firstn (S j) z) = bj) /\
+  mvn_log_prob (ROpsG lgam) rows loc x =
+    Fin (- (1 / 2) * rsum (map (fun v => v * v) z) - rsum (map ln (diag_from (ROpsG lgam) 0 rows)) - INR (length rows) / 2 * ln (2 * PI)).
+Proof. exact mvn_spec. Qed.
+Print Assumptions C05_mvn_spec_partial.
+
+(* ---- samplers (structural): the sampler pushes the named primitive's draw z through x = z * scale + loc; log_prob's inverse map
+   recovers z, so the log-density at a sample is the base log-density of the draw minus sum ln|scale| ---- *)
+Theorem C05_sample_density_locscale : forall lgam f dfs locs scales zs,
+  plain_locscale f = true -> length locs = length zs -> length scales = length zs -> Forall (fun s => s <> 0) scales ->
+  fam_raw (ROpsG lgam) f locs scales dfs (map Fin (fam_sample (ROpsG lgam) f locs scales zs)) =
+  e_add (ROpsG lgam) (std_lp (ROpsG lgam) f dfs (map Fin zs)) (scale_ldj (ROpsG lgam) scales).
+Proof. exact sample_density_locscale. Qed.
+Print Assumptions C05_sample_density_locscale.
+
+Theorem C05_lognormal_sample_recovers : forall lgam locs scales zs,
+  length locs = length zs -> length scales = length zs -> Forall (fun s => s <> 0) scales ->
+  map3 (affine_inv1 (ROpsG lgam)) locs scales (map (e_log (ROpsG lgam)) (map Fin (fam_sample (ROpsG lgam) FLogNormal locs scales zs))) = map Fin zs.
+Proof. exact lognormal_sample_recovers. Qed.
+Print Assumptions C05_lognormal_sample_recovers.
+
+Theorem C05_exponential_sample_recovers : forall lgam rates zs,
+  length rates = length zs -> Forall (fun r => 0 < r) rates ->
+  map2 (scale_inv1 (ROpsG lgam)) (exponential_scales (ROpsG lgam) rates) (map Fin (fam_sample (ROpsG lgam) FExponential rates [] zs)) = map Fin zs.
+Proof. exact exponential_sample_recovers. Qed.
+Print Assumptions C05_exponential_sample_recovers.
+
+(* ---- accessors return the constructor's values ---- *)
+Theorem C05_accessor_maxval : forall lgam los his, length los = length his -> acc_maxval (ROpsG lgam) los his = his.
+Proof. exact acc_maxval_R. Qed.
+Print Assumptions C05_accessor_maxval.
+
+Theorem C05_accessor_rate : forall lgam rates, Forall (fun r => r <> 0) rates -> acc_rate (ROpsG lgam) rates = rates.
+Proof. exact acc_rate_R. Qed.
+Print Assumptions C05_accessor_rate.
+
+Theorem C05_accessor_loc_scale : forall lgam f p1 p2, f <> FUniform -> acc_loc f p1 p2 = p1 /\ acc_scale (ROpsG lgam) f p1 p2 = p2.
+Proof. exact acc_loc_scale_R. Qed.
+Print Assumptions C05_accessor_loc_scale.
+
+(* ---- broadcasting of the constructor arguments: NumPy's index rule ---- *)
+Theorem C05_broadcast_index_rule : forall (A : Type) (O : NumOps A) rs rt d i, (i < prodn rt)%nat ->
+  nth i (bcast O rs rt d) (c O 0) = nth (bproj rs rt i 1) d (c O 0).
+Proof. exact @bcast_nth. Qed.
+Print Assumptions C05_broadcast_index_rule.
+
+(* ================= non-vacuity: concrete instances that meet the hypotheses ================= *)
+Example C05_ex_normal_vector :
+  fam_log_prob ROps FNormal [1; -2] [2; 1 / 2] [] [Fin 3; Fin 0] =
+  esum [elog (normal_pdf 1 2 3); elog (normal_pdf (-2) (1 / 2) 0)].
+Proof. apply (normal_spec (fun _ => 0) [1; -2] [2; 1 / 2] [3; 0]); try reflexivity. repeat constructor; lra. Qed.
+
+(* Uniform(-1, 5/2): both edges are inside the support, one step outside is -inf *)
+Example C05_ex_uniform_edges :
+  fam_log_prob ROps FUniform [-1] [5 / 2] [] [Fin (5 / 2)] = Fin (ln (1 / (5 / 2 - -1)) + 0) /\
+  fam_log_prob ROps FUniform [-1] [5 / 2] [] [Fin (-1)] = Fin (ln (1 / (5 / 2 - -1)) + 0) /\
+  fam_log_prob ROps FUniform [-1] [5 / 2] [] [Fin 3] = NInf.
+Proof.
+  assert (H : Forall2 Rlt [-1] [5 / 2]) by (repeat constructor; lra).
+  repeat split.
+  - rewrite (uniform_spec (fun _ => 0) [-1] [5 / 2] [5 / 2] eq_refl eq_refl H : fam_log_prob ROps FUniform [-1] [5 / 2] [] [Fin (5 / 2)] = _). cbn. unfold uniform_pdf.
+    destruct (Rle_dec (-1) (5 / 2)); [|lra]. destruct (Rle_dec (5 / 2) (5 / 2)); [|lra]. rewrite elog_pos by lra. reflexivity.
+  - rewrite (uniform_spec (fun _ => 0) [-1] [5 / 2] [-1] eq_refl eq_refl H : fam_log_prob ROps FUniform [-1] [5 / 2] [] [Fin (-1)] = _). cbn. unfold uniform_pdf.
+    destruct (Rle_dec (-1) (-1)); [|lra]. destruct (Rle_dec (-1) (5 / 2)); [|lra]. rewrite elog_pos by lra. reflexivity.
+  - rewrite (uniform_spec (fun _ => 0) [-1] [5 / 2] [3] eq_refl eq_refl H : fam_log_prob ROps FUniform [-1] [5 / 2] [] [Fin 3] = _). cbn. unfold uniform_pdf.
+    destruct (Rle_dec (-1) 3); [|lra]. destruct (Rle_dec 3 (5 / 2)); [lra|]. now rewrite elog_0.
+Qed.
+
+(* LogNormal at 0 and Exponential below 0: -inf; one bad coordinate makes the joint -inf *)
+Example C05_ex_outside_support :
+  fam_log_prob ROps FLogNormal [0; 0] [1; 1] [] [Fin 1; Fin 0] = NInf /\
+  fam_log_prob ROps FExponential [2] [] [] [Fin (-1)] = NInf.
+Proof.
+  split.
+  - assert (Hs : Forall (fun s => 0 < s) [1; 1]) by (repeat constructor; lra).
+    rewrite (lognormal_spec (fun _ => 0) [0; 0] [1; 1] [1; 0] eq_refl eq_refl Hs : fam_log_prob ROps FLogNormal [0; 0] [1; 1] [] [Fin 1; Fin 0] = _).
+    cbn. unfold lognormal_pdf at 2. destruct (Rlt_dec 0 0); [lra|]. rewrite elog_0. now destruct (elog (lognormal_pdf 0 1 1)).
+  - assert (Hr : Forall (fun r => 0 < r) [2]) by (repeat constructor; lra).
+    rewrite (exponential_spec (fun _ => 0) [2] [-1] eq_refl Hr : fam_log_prob ROps FExponential [2] [] [] [Fin (-1)] = _).
+    cbn. unfold exponential_pdf. destruct (Rle_dec 0 (-1)); [lra|]. now rewrite elog_0.
+Qed.
+
+(* three unnormalised weights, rescaled by 7 *)
+Example C05_ex_mixture :
+  mixture_log_prob ROps [Fin 0; NInf; Fin (-1)] (map (Rmult 7) [1; 3; 1 / 2]) = mixture_log_prob ROps [Fin 0; NInf; Fin (-1)] [1; 3; 1 / 2] /\
+  mixture_log_prob ROps [Fin 0; NInf; Fin (-1)] [1; 3; 1 / 2] =
+    elog (rsum [1 / rsum [1; 3; 1 / 2] * exp 0; 3 / rsum [1; 3; 1 / 2] * 0; 1 / 2 / rsum [1; 3; 1 / 2] * exp (-1)]).
+Proof.
+  assert (Hw : Forall (fun w => 0 < w) [1; 3; 1 / 2]) by (repeat constructor; lra).
+  split.
+  - apply (mixture_scale_invariant (fun _ => 0)); [lra|discriminate|exact Hw].
+  - assert (Hf : Forall FN [Fin 0; NInf; Fin (-1)]) by (repeat constructor).
+    assert (Hne : [1; 3; 1 / 2] <> []) by discriminate.
+    exact (mixture_spec (fun _ => 0) [Fin 0; NInf; Fin (-1)] [1; 3; 1 / 2] Hne Hw eq_refl Hf).
+Qed.
+
+(* a 2 x 2 Cholesky factor meets tri_ok *)
+Example C05_ex_tri_ok : tri_ok [[2; 0]; [1; 3]].
+Proof.
+  intros [|[|j]] r H; cbn in H; try (destruct j; discriminate); injection H as <-; cbn; split; try lia; lra.
+Qed.
+
+(* broadcasting loc of shape (2,1) against scale of shape (3,): event shape (2,3); index plans (shapes reversed) *)
+Example C05_ex_broadcast :
+  bshape_rev [1; 2]%nat [3]%nat = [3; 2]%nat /\
+  map (fun i => bproj [1; 2]%nat [3; 2]%nat i 1) (seq 0 6) = [0; 0; 0; 1; 1; 1]%nat /\
+  map (fun i => bproj [3]%nat [3; 2]%nat i 1) (seq 0 6) = [0; 1; 2; 0; 1; 2]%nat /\
+  map (fun i => bproj [] [3; 2]%nat i 1) (seq 0 6) = [0; 0; 0; 0; 0; 0]%nat.
+Proof. vm_compute. repeat split; reflexivity. Qed.
